@@ -57,6 +57,15 @@ PLAN = {
         "rule": "coding selection table enumerated by TLC (method x Content-Encoding tokens x Transfer-Encoding tokens x framing, any letter case, lists), each row a real exchange with the declared coding applied; streams: payload classes x levels 0..9 x gzip header options x framings x segmentations x read sizes; every truncation offset of small streams, boundary-biased of large; each of the 64 gzip trailer bits flipped",
         "assumptions": ASSUME_X + ["deflate = raw RFC 1951 stream (what the repository's tests send)", "inflate itself is opaque: its output is compared with the known payload in the projection"],
     },
+    "C18": {
+        "mc": [],
+        "families": [{"gen": ("tlc", {"name": "charset-table", "tla": "MC_Charset.tla", "cfg": "MC_Charset.cfg", "workers": 2}),
+                      "runner": "charset", "trace": "Trace_Charset"},
+                     fam("charset_split", runner="charset", trace="Trace_Charset")],
+        "rule": "charset-source table enumerated by TLC (Content-Type shape x request default x session default x reading call); each row expanded over all charsets of the decoder library, label spellings (upper/lower/mixed case, aliases), unknown labels, bodies with valid / malformed / truncated multi-byte sequences, segmentations and reader buffer sizes; plus every cut offset of multi-byte texts in 12 charsets incl. BOM-prefixed (streaming half)",
+        "assumptions": ASSUME_X + ["code-point tables are encoding_rs's: the reference is encoding_rs whole-buffer decoding in the projection", "which source was used is observed through the decoded string (bodies are chosen to decode differently under the candidate charsets)"],
+        "replay_runner": "charset", "replay_trace": "Trace_Charset",
+    },
     "C19": {
         "mc": [MC_EXCHANGE],
         "families": [fam("x_small"), fam("x_large")],
